@@ -120,6 +120,9 @@ func main() {
 	if prop == "vsplit" {
 		os.Exit(vsplitCmd(*par))
 	}
+	if prop == "cliclean" {
+		os.Exit(clicleanCmd(*par))
+	}
 	if prop == "instrumented-tests" {
 		b, err := buildSimnode("itests")
 		defer b.cleanup()
@@ -150,6 +153,28 @@ func main() {
 		b.wall.Seconds(), len(b.instr.Sites), b.instr.Knob, b.instr.SyncRewrite, b.instr.GoStmts, len(b.instr.ChanWrapped), b.instr.ChanOps)
 	code := 0
 	deepTier = *tier == "thorough"
+	if want := os.Getenv("VERIF_FIND"); want != "" {
+		// debug: list the run indexes whose generated scenario contains the text
+		corp, err := loadCorpus(filepath.Join(verifDir(), "corpus"))
+		if err != nil {
+			fatal2("corpus: %v", err)
+		}
+		n := *runs
+		if n == 0 {
+			n = 2000
+		}
+		for i := 0; i < n; i++ {
+			sc := generate(prop, corp, mix(seed, uint64(i)))
+			for k := range sc.Inputs {
+				sc.Inputs[k].Src = nil
+			}
+			if raw, _ := json.Marshal(sc); strings.Contains(string(raw), want) {
+				fmt.Printf("run %d: %s\n", i, oneLine(string(raw)))
+			}
+		}
+		b.cleanup()
+		os.Exit(0)
+	}
 	if *only >= 0 {
 		corp, err := loadCorpus(filepath.Join(verifDir(), "corpus"))
 		if err != nil {
@@ -164,7 +189,7 @@ func main() {
 			r.res = &scn.Result{}
 		}
 		js, _ := json.MarshalIndent(sampleOf(r), "", " ")
-		fmt.Printf("%s\ninfra=%q wall=%.1fs races=%d violations=%v probes=%v\n", js, r.infra, time.Since(t0).Seconds(), r.races, r.res.Violations, r.res.Probes)
+		fmt.Printf("%s\ninfra=%q wall=%.1fs races=%d violations=%v probes=%v trace=%v\n", js, r.infra, time.Since(t0).Seconds(), r.races, r.res.Violations, r.res.Probes, r.res.Trace)
 		b.cleanup()
 		os.Exit(0)
 	}
